@@ -162,3 +162,31 @@ func vpH_C18_T_follower_nowatch() {
 	vpAssert("C18.follower-leaderid", s.e.Status().LeaderID == "third")
 	_ = s.e.Stop()
 }
+
+// vpH_C18_T_slow_ondemote: the application's OnDemote callback takes 500 ms; the term is ended by a validation
+// the application asks for (record taken by a later incarnation), the record is then vacated and the instance
+// wins it again while that callback is still running. Afterwards the snapshot shows a leader with the token of
+// its live record.
+func vpH_C18_T_slow_ondemote() {
+	H := time.Second
+	vpSetOpt("rand-fixed", 1)
+	s := vpTermInstance(H, true, false, nil)
+	s.cb.onDemoteFn = func() { time.Sleep(500 * time.Millisecond) }
+	s.st.noEvents = true
+	s.st.write("env:a2", "update", vpRecMk("a", "tok-later", 0), false, s.st.lastSeq)
+	s.st.noEvents = false
+	go func() {
+		_ = s.e.ValidateTokenOrDemote(vpRootCtx())
+	}()
+	time.Sleep(50 * time.Millisecond)
+	s.st.write("env:a2", "delete", nil, true, 0)
+	time.Sleep(H)
+	vpQuiesce()
+	vpCover("C18.slow-ondemote")
+	stt := s.e.Status()
+	if stt.IsLeader && s.st.live() && s.st.writer == "a" {
+		vpAssert("C18.leader-snapshot", stt.LeaderID == "a" && stt.Token == vpRecTok(s.st.val) && stt.State == StateLeader)
+	}
+	vpAssert("C18.flag-iff-state", stt.IsLeader == (stt.State == StateLeader))
+	_ = s.e.Stop()
+}
